@@ -1,0 +1,99 @@
+//go:build verif
+// +build verif
+
+// Read-only enumeration of the three tries of a StateDB for the verification harness under /verif (build tag "verif").
+// Unlike RawDump it does not depend on key preimages: leaves are returned with their hashed keys and raw values.
+// Nothing here is compiled into a normal build.
+
+package state
+
+import (
+	"github.com/youchainhq/go-youchain/common"
+	"github.com/youchainhq/go-youchain/rlp"
+	"github.com/youchainhq/go-youchain/trie"
+)
+
+// VerifLeaf is one leaf of a (secure) trie: the hashed key and the stored value.
+type VerifLeaf struct {
+	Key   common.Hash
+	Value []byte
+}
+
+// VerifAccountLeaf is one account of the state trie with everything it refers to.
+type VerifAccountLeaf struct {
+	Key         common.Hash // keccak(address)
+	Account     Account
+	Code        []byte
+	CodeErr     error
+	Delegations []common.Address
+	DlgErr      error
+	Storage     []VerifLeaf // hashed slot key -> rlp(value)
+}
+
+func verifLeaves(t Trie) []VerifLeaf {
+	var out []VerifLeaf
+	it := trie.NewIterator(t.NodeIterator(nil))
+	for it.Next() {
+		out = append(out, VerifLeaf{Key: common.BytesToHash(it.Key), Value: common.CopyBytes(it.Value)})
+	}
+	return out
+}
+
+// VerifEnumerate lists every leaf of the state trie (with code, delegation list and storage of each account), of the
+// validator trie and of the staking trie, as currently held by the tries of st (pending in-memory changes are not flushed).
+func (st *StateDB) VerifEnumerate() (accounts []VerifAccountLeaf, valLeaves, stakingLeaves []VerifLeaf, err error) {
+	for _, leaf := range verifLeaves(st.trie) {
+		al := VerifAccountLeaf{Key: leaf.Key}
+		if err := rlp.DecodeBytes(leaf.Value, &al.Account); err != nil {
+			return nil, nil, nil, err
+		}
+		codeHash := common.BytesToHash(al.Account.CodeHash)
+		if codeHash != emptyCode && len(al.Account.CodeHash) > 0 {
+			al.Code, al.CodeErr = st.db.ContractCode(leaf.Key, codeHash)
+		}
+		if len(al.Account.DelegationsHash) > 0 {
+			bs, err := st.db.TrieDB().Node(common.BytesToHash(al.Account.DelegationsHash))
+			if err != nil {
+				al.DlgErr = err
+			} else {
+				var dl common.SortedAddresses
+				if err := rlp.DecodeBytes(bs, &dl); err != nil {
+					al.DlgErr = err
+				}
+				al.Delegations = dl
+			}
+		}
+		if al.Account.Root != emptyRoot && al.Account.Root != (common.Hash{}) {
+			tr, err := st.db.OpenStorageTrie(leaf.Key, al.Account.Root)
+			if err != nil {
+				return nil, nil, nil, err
+			}
+			al.Storage = verifLeaves(tr)
+		}
+		accounts = append(accounts, al)
+	}
+	return accounts, verifLeaves(st.valTrie), verifLeaves(st.stakingTrie), nil
+}
+
+// Prefixes of the keyed values of the validator trie and the staking trie.
+var (
+	VerifFlagValidator = validatorFlag
+	VerifFlagIndex     = validatorIndexFlag
+	VerifFlagStat      = validatorStatFlag
+	VerifFlagQueue     = validatorWithdrawQueueFlag
+	VerifFlagPending   = pendingRelationshipFlag
+)
+
+// VerifDecodePendingRelationship decodes the stored pending-relationship list into (delegator, validator) pairs.
+func VerifDecodePendingRelationship(data []byte) ([][2]common.Address, error) {
+	p := newPendingRelationship()
+	if err := rlp.DecodeBytes(data, p); err != nil {
+		return nil, err
+	}
+	var out [][2]common.Address
+	for _, bi := range p.r {
+		d, v := bi.Split()
+		out = append(out, [2]common.Address{d, v})
+	}
+	return out, nil
+}
